@@ -44,4 +44,9 @@ def respondStore (ws : List String) : Option String :=
       | _ => none) (fun v => toString v.payload) (rest.filter (· != "")))
   | "storef" :: rest =>
     some (runStore f32Eq (fun s => s.toNat?) (fun v => toString v) (rest.filter (· != "")))
+  | "storez" :: mode :: rest =>
+    -- zero-sized values: every two values are equal (`r`) or no value equals any (`i`)
+    if mode == "r" || mode == "i" then
+      some (runStore (fun (_ _ : Unit) => mode == "r") (fun _ => some ()) (fun _ => "z") (rest.filter (· != "")))
+    else some "bad-request"
   | _ => none
